@@ -99,6 +99,11 @@ def harvestR (cfg : Cfg) (s : S) (r' : R.State) : S :=
 def harvestI (cfg : Cfg) (s : S) (i' : I.State) : S :=
   let new := i'.out.take (i'.out.length - s.i.out.length)
   let now := i'.now
+  -- a worker sending after sess.Close() closed the send channel panics
+  if s.r.sendClosed && new.any (fun o => match o with | .send _ => true | _ => false) then
+    { s with i := { s.i with crashed := some "send on closed channel" },
+             log := (now, .crashed "send on closed channel") :: s.log }
+  else
   let s0 := s
   let s := { s with i := i', log := new.map (fun o => (now, Obs.i o)) ++ s.log }
   let s := new.foldr (fun o (s : S) =>
